@@ -246,6 +246,9 @@ template<typename FwdC>
 void req_compactor<T, C, A>::merge(FwdC&& other) {
   // TODO: swap if other is larger?
   if (lg_weight_ != other.lg_weight_) throw std::logic_error("weight mismatch");
+  // an odd state means the next compaction reuses the negated coin of the previous one,
+  // so if the odd parity is inherited from the other compactor its coin must come along
+  if ((state_ & 1) == 0 && (other.state_ & 1) == 1) coin_ = other.coin_;
   state_ |= other.state_;
   while (ensure_enough_sections()) {}
   ensure_space(other.get_num_items());
